@@ -585,6 +585,9 @@ def method_call(eng, st, recv, name, args, kwargs, node):
             if not isinstance(sentinel, VNone):
                 raise Unsupported("PKCS1 decrypt with a non-None sentinel")
             eng.implicit_error(st, IS.len(ct.t) == smt.rsa_k(key), "ValueError", node, "rsa-ciphertext-length")
+            inrange = smt_fn("rsa_inrange", Val, ISq, B)(key, ct.t)     # ciphertext integer below the modulus
+            st.assume(z3.Implies(smt.rsa_ok(key, ct.t), inrange))
+            eng.implicit_error(st, inrange, "ValueError", node, "rsa-ciphertext-too-large")
             pt = eng.named(st, VSeq(smt.rsa_pt(key, ct.t), "bytes"), "rsa_pt")
             st.assume(is_bytes_fact(pt.t), IS.len(pt.t) <= smt.rsa_k(key) - 11)
             return [(st, VOpt(z3.Not(smt.rsa_ok(key, ct.t)), pt))]
